@@ -81,8 +81,8 @@ static int xattr_from_path(sqfs_xattr_writer_t *xwr, const char *path)
 			goto fail;
 		}
 
-		if (vallen > 0) {
-			value = calloc(1, vallen);
+		{
+			value = calloc(1, vallen + 1);
 			if (value == NULL) {
 				perror("allocating xattr value buffer");
 				goto fail;
